@@ -634,6 +634,19 @@ class ExprMixin:
             return self.container_contains(st, b, a)
         if isinstance(b, VSeq):
             return [(st, z3.Contains(b.t, z3.Unit(box(a))))]
+        if isinstance(b, (VU, VOpaque)):
+            out = []
+            for s, bv in self.split_tags(st, b):
+                if isinstance(bv, (VU, VOpaque)):
+                    for s2, r in self.opaque_call(s, "contains", [bv, a], may_raise=("TypeError",), pure=True):
+                        out.append((s2, r if isinstance(r, Raised) else self.truth(s2, r)))
+                elif isinstance(bv, VStr):
+                    out.extend(self.py_in(s, a, bv))
+                else:
+                    out.append(self.raised(s, "TypeError", "argument is not iterable"))
+            return out
+        if isinstance(b, (VInt, VBool, VNone, VFlt)):
+            return [self.raised(st, "TypeError", "argument is not iterable")]
         raise Unsupported(f"`in` with container {type(b).__name__}")
 
     def py_order(self, st, op, a, b):
